@@ -21,7 +21,8 @@ META = {
         'field under %r (builtin reprs are closed by the library); (D3) parse_filter demands parseAll=True and the '
         'template is one def with one return expression; (D4) no open/import/os/subprocess/socket/eval/compile call '
         'in the filter modules, exec only in the wrapper, Grid.filter stores nothing through self; (D5) the value constructors a filter literal reaches (datatypes __new__/__init__, pintutil.to_pint/to_haystack) call nothing on program-wide objects (unit registry, module tables).  Also (D3): the filter text is handed unchanged from Grid.filter to the grammar (shared with C11.D8), so invalid tokens reach the grammar and are refused.  Not decided: '
-        'absence of effects as an observation of executions.'),
+        'absence of effects as an observation of executions.'
+        ' Also (D4): calls into modules that hold interpreter-wide settings (warnings, locale, signal, gc, ...) on the filter path.  (D2) every return of an if/return __repr__ is analysed.'),
     'rule_text': 'obligations = fragments reaching exec (per append/extend site), literal classes x repr conversions, '
                  'shape facts, ambient-effect call scan',
     'trusted_base': ['repr() of str/float/int/bool/None/bytes/list/dict/date/time/datetime re-reads as a literal of '
@@ -33,7 +34,10 @@ F = 'hszinc/grid_filter.py'
 BUILTIN_CLOSED = {'float', 'int', 'bool', 'None', 'str', 'token', 'date', 'time', 'datetime', 'list', 'dict'}
 CONV = re.compile(r'%(?:\([^)]*\))?[-#0 +]*(?:\*|\d+)?(?:\.(?:\*|\d+))?([a-zA-Z%])')
 DANGEROUS = {'open', '__import__', 'eval', 'compile', 'execfile', 'input'}
-DANGEROUS_MODS = {'os', 'subprocess', 'socket', 'shutil', 'importlib', 'pickle', 'ctypes', 'sys'}
+DANGEROUS_MODS = {'os', 'subprocess', 'socket', 'shutil', 'importlib', 'pickle', 'ctypes', 'sys',
+                  # interpreter-wide settings: a call into these changes what the REST of the program observes
+                  # (warnings.catch_warnings swaps the process-global filter list and is not thread-safe)
+                  'warnings', 'locale', 'signal', 'gc', 'atexit', 'faulthandler', 'tracemalloc', 'resource', 'site'}
 
 
 def run(ctx):
@@ -401,23 +405,32 @@ def _closedness(ctx, m, g):
             continue
         FD = 'hszinc/datatypes.py'
         body = body_wo_doc(rp)
-        if len(body) != 1 or not isinstance(body[0], ast.Return):
+        rets = [r for r in walk_no_nested(rp) if isinstance(r, ast.Return)]
+        straight = all(isinstance(x, (ast.If, ast.Return)) or (isinstance(x, ast.Expr) and isinstance(x.value, ast.Constant))
+                       for x in walk_no_nested(rp) if isinstance(x, ast.stmt) and x is not rp)
+        if not rets or not straight or any(r.value is None for r in rets):
             ctx.error('C12.D2', '%s.__repr__ is not a single return' % owner)
             continue
-        v = body[0].value
+        # every way out of __repr__ (if / return only) must give a closed text
+        for ret in rets:
+            _closed_repr(ctx, c, rp, owner, k, ret, FD)
+
+
+def _closed_repr(ctx, c, rp, owner, k, ret, FD):
+        v = ret.value
         if isinstance(v, ast.Constant) and isinstance(v.value, str):
             ctx.ob('C12.D2', '%s.__repr__ is the constant %r' % (owner, v.value), True, '%s:%d' % (FD, rp.lineno))
-            continue
+            return
         if not (isinstance(v, ast.BinOp) and isinstance(v.op, ast.Mod) and isinstance(v.left, ast.Constant)
                 and isinstance(v.left.value, str)):
             ctx.error('C12.D2', '%s.__repr__ has an unrecognised form: %s' % (owner, norm(v)))
-            continue
+            return
         fmt = v.left.value
         convs = [c_ for c_ in CONV.findall(fmt) if c_ != '%']
         args = v.right.elts if isinstance(v.right, ast.Tuple) else [v.right]
         if len(convs) != len(args):
             ctx.error('C12.D2', '%s.__repr__: %d conversions for %d arguments' % (owner, len(convs), len(args)))
-            continue
+            return
         unclosed = []
         for conv, arg in zip(convs, args):
             t = norm(arg)
@@ -436,7 +449,7 @@ def _closedness(ctx, m, g):
         # constant head: the text before the first conversion must be an identifier + "(" or start with %s=class name
         if unclosed:
             conv, t = unclosed[0]
-            ctx.violation('C12.D2', '%s::%s.__repr__' % (FD, owner), norm(body[0]),
+            ctx.violation('C12.D2', '%s::%s.__repr__' % (FD, owner), norm(ret),
                           'filter  a == eval("__import__(\'os\').system(\'id\')")  parses as an extended-string literal '
                           '(type tag `eval`, payload the string); repr() gives  eval("…")  verbatim, and the generated '
                           'function calls the builtin on attacker text' if owner == 'XStr' else
